@@ -36,6 +36,16 @@ Theorem C19_find_positions_sound : forall data to_find j p,
 Proof. exact find_positions_spec. Qed.
 Print Assumptions C19_find_positions_sound.
 
+(* ... and it is the FIRST such index; -1 exactly when the value does not occur (np.searchsorted with a stable sorter) *)
+Require Import QV.C19.ProofsFind.
+Theorem C19_find_positions_first : forall data to_find j x,
+  nth_error to_find j = Some x ->
+  ((~ In x data) -> nth_error (find_positions data to_find) j = Some (-1)) /\
+  (forall i, (i < length data)%nat -> nth i data 0 = x ->
+     exists i0, nth_error (find_positions data to_find) j = Some (Z.of_nat i0) /\ (i0 <= i)%nat /\ nth i0 data 0 = x).
+Proof. exact find_positions_first. Qed.
+Print Assumptions C19_find_positions_first.
+
 (* the `assert` in the code never fires *)
 Theorem C19_no_assertion_error : forall mem nh nl, find_place mem nh nl <> Err AssertionFailed.
 Proof. exact find_place_no_assertion. Qed.
